@@ -59,22 +59,42 @@ fn travel(h: &RHop, cons_dir: bool) -> (u16, u16) {
 /// Processes the packet's path at AS `a`, entered through interface `ingress` (0 = from inside
 /// the AS). On `Forward` the path has been advanced for the next AS.
 pub fn process(t: &Topo, a: usize, ingress: u16, p: &mut RStd, dst_ia: u64, now: u32) -> Verdict {
+    process_all(t, a, ingress, p, dst_ia, now, Lenient::default()).0
+}
+
+/// Rules of the reference router that a caller may switch off where the property under test
+/// leaves the behaviour open.
+#[derive(Clone, Copy, Debug, Default)]
+pub struct Lenient {
+    /// a packet whose destination ISD-AS is the processing AS but whose path continues is
+    /// forwarded (the reference router answers "invalid destination")
+    pub transit_through_dst: bool,
+    /// a segment change on a packet that entered from inside the AS is processed like one that
+    /// arrived over the interface named by the hop field
+    pub internal_xover: bool,
+}
+
+/// As `process`, additionally returning every rule the packet violates at this AS (in checking
+/// order; the verdict is the first one). Callers that compare error classes of a router with a
+/// different checking order accept any member of the list.
+pub fn process_all(t: &Topo, a: usize, ingress: u16, p: &mut RStd, dst_ia: u64, now: u32, len: Lenient) -> (Verdict, Vec<Reject>) {
+    let mut all: Vec<Reject> = vec![];
     let bounds = seg_bounds(p);
     let nhops: usize = p.hops.len();
     // well-formed: no gaps in the segment lengths, pointers inside and consistent
     if bounds.is_empty() || bounds.last().unwrap().1 != nhops || p.infos.len() != bounds.len() {
-        return Verdict::Reject(Reject::Malformed);
+        return (Verdict::Reject(Reject::Malformed), vec![Reject::Malformed]);
     }
     let (ci, ch) = (p.curr_inf as usize, p.curr_hf as usize);
     if ch >= nhops || ci >= bounds.len() || !(bounds[ci].0 <= ch && ch < bounds[ci].1) {
-        return Verdict::Reject(Reject::Malformed);
+        return (Verdict::Reject(Reject::Malformed), vec![Reject::Malformed]);
     }
     // peering
     let info = p.infos[ci];
     let mut peering = false;
     if info.peering() {
         if bounds.len() != 2 {
-            return Verdict::Reject(Reject::Malformed);
+            return (Verdict::Reject(Reject::Malformed), vec![Reject::Malformed]);
         }
         peering = ch + 1 == bounds[0].1 || ch == bounds[1].0;
     }
@@ -82,25 +102,26 @@ pub fn process(t: &Topo, a: usize, ingress: u16, p: &mut RStd, dst_ia: u64, now:
     let now_ms = now as u64 * 1000;
     let hop = p.hops[ch];
     if hop_expiry_ms(info.ts, hop.exp) < now_ms {
-        return Verdict::Reject(Reject::Expired);
+        all.push(Reject::Expired);
     }
     let (h_in, h_eg) = travel(&hop, info.cons_dir());
     if ingress != 0 && h_in != ingress {
-        return Verdict::Reject(Reject::BadIngress);
+        all.push(Reject::BadIngress);
     }
     let is_last = ch + 1 == nhops;
     let local = t.ases[a].ia;
-    if (dst_ia == local) != is_last {
-        return Verdict::Reject(Reject::NonLocal);
+    if (dst_ia == local) != is_last && !(len.transit_through_dst && !is_last) {
+        all.push(Reject::NonLocal);
     }
     if !info.cons_dir() && ingress != 0 && !peering {
         p.infos[ci].seg_id = mac::beta_step(p.infos[ci].seg_id, &hop.mac);
     }
     if !mac::verifies(&key, p.infos[ci].seg_id, info.ts, &hop) {
-        return Verdict::Reject(Reject::BadMac);
+        all.push(Reject::BadMac);
     }
+    let finish = |v: Verdict, all: Vec<Reject>| if let Some(f) = all.first() { (Verdict::Reject(*f), all) } else { (v, all) };
     if is_last {
-        return Verdict::Deliver;
+        return finish(Verdict::Deliver, all);
     }
     // crossover: the current hop is the last of its segment (and this is not a peering hop)
     let mut eff_xover = false;
@@ -113,42 +134,50 @@ pub fn process(t: &Topo, a: usize, ingress: u16, p: &mut RStd, dst_ia: u64, now:
         let info2 = p.infos[ci2];
         let hop2 = p.hops[ch2];
         if hop_expiry_ms(info2.ts, hop2.exp) < now_ms {
-            return Verdict::Reject(Reject::Expired);
+            all.push(Reject::Expired);
         }
         if !mac::verifies(&key, info2.seg_id, info2.ts, &hop2) {
-            return Verdict::Reject(Reject::BadMac);
+            all.push(Reject::BadMac);
         }
         egress = travel(&hop2, info2.cons_dir()).1;
         if ch2 + 1 == nhops {
             // a segment consisting of a single hop at the very end: nothing to forward on
-            return Verdict::Reject(Reject::Malformed);
+            all.push(Reject::Malformed);
+            return finish(Verdict::Deliver, all);
         }
     }
     // interface pair admissibility
     let Some((eg_link, next_as, next_if)) = t.link_at(a, egress) else {
-        return Verdict::Reject(Reject::BadEgress);
+        all.push(Reject::BadEgress);
+        return finish(Verdict::Deliver, all);
     };
     let eg_role = t.role_at(a, egress).unwrap();
-    if ingress != 0 {
-        let Some(in_role) = t.role_at(a, ingress) else {
-            return Verdict::Reject(Reject::BadIngress);
-        };
-        use IfRole::*;
-        // roles are named after where the interface leads: ToParent = towards the parent
-        let ok = if !eff_xover {
-            matches!((in_role, eg_role), (Core, Core) | (ToChild, ToParent) | (ToParent, ToChild) | (ToChild, Peer) | (Peer, ToChild))
-        } else {
-            matches!((in_role, eg_role), (Core, ToChild) | (ToChild, Core) | (ToChild, ToChild))
-        };
-        if !ok {
-            return Verdict::Reject(Reject::BadSegChange);
+    let role_if = if ingress == 0 && eff_xover && len.internal_xover { h_in } else { ingress };
+    if role_if != 0 {
+        match t.role_at(a, role_if) {
+            None => all.push(Reject::BadIngress),
+            Some(in_role) => {
+                use IfRole::*;
+                // roles are named after where the interface leads: ToParent = towards the parent
+                let ok = if !eff_xover {
+                    matches!((in_role, eg_role), (Core, Core) | (ToChild, ToParent) | (ToParent, ToChild) | (ToChild, Peer) | (Peer, ToChild))
+                } else {
+                    matches!((in_role, eg_role), (Core, ToChild) | (ToChild, Core) | (ToChild, ToChild))
+                };
+                if !ok {
+                    all.push(Reject::BadSegChange);
+                }
+            }
         }
     } else if eff_xover {
         // a segment change on a packet coming from inside the AS is never valid
-        return Verdict::Reject(Reject::BadSegChange);
+        all.push(Reject::BadSegChange);
     }
     if !t.links[eg_link].up {
-        return Verdict::Reject(Reject::IfDown);
+        all.push(Reject::IfDown);
+    }
+    if !all.is_empty() {
+        return finish(Verdict::Deliver, all);
     }
     // egress processing
     let (ci, ch) = (p.curr_inf as usize, p.curr_hf as usize);
@@ -160,7 +189,7 @@ pub fn process(t: &Topo, a: usize, ingress: u16, p: &mut RStd, dst_ia: u64, now:
     if p.curr_hf as usize >= bounds[ci].1 {
         p.curr_inf += 1;
     }
-    Verdict::Forward { egress, next_as, next_if }
+    (Verdict::Forward { egress, next_as, next_if }, all)
 }
 
 #[derive(Clone, Debug, PartialEq, Eq)]
